@@ -70,6 +70,10 @@ def run(ctx):
         for t2 in TEXTS[:: (9 if ctx.quick else 2)]:
             cases.append((6, t, t2, base + [["op", "with_query", ["map", [t, t2]]]]))
             cases.append((6, t, t2, [["push", build(query=["seq", [t, t2]])]]))
+    # numbers are supplied as their str(): the '+' of a float exponent is a decoded '+', not a space
+    for f in (1e16, 1e20, 1.5e300, -2.5e+17, 1e-7, 0.5, -0.0, 12345678901234567890.0):
+        cases.append((6, "k+", str(f), base + [["op", "with_query", ["map", ["k+", ["float", str(f)]]]]]))
+        cases.append((6, "k", str(f), [["push", build(query=["seq", ["k", ["float", str(f)]]])]]))
     # the same modifiers on a base whose components all carry escapes: the untargeted ones keep their meaning
     base2 = [["push", ["url", "http://u%40x:p%3Ay@h/a%2Fb/c%20d?k%26=v%3D&x=%2B#f%23%C3%A9"]]]
     fr = []
